@@ -273,7 +273,9 @@ theorem integFrom_head (segs : List (α × α)) (acc : α) (hv : Valid segs) (hn
   match segs, hne, hv with
   | [(b, m)], _, _ => simp [integFrom]
   | (b, m) :: (b', m') :: rest, _, hv =>
-    simp only [integFrom, List.head_cons, if_pos hv.2.1]
+    show integFrom ((b, m) :: (b', m') :: rest) acc b = acc
+    simp only [integFrom]
+    rw [if_pos hv.2.1]
     simp
 
 /-- round trip: converting with the image history undoes `integFrom` -/
@@ -342,7 +344,7 @@ theorem integFrom_slope (segs : List (α × α)) (acc x y μ M : α) (hv : Valid
     (hb : ∀ s ∈ segs, μ ≤ s.2 ∧ s.2 ≤ M) :
     (y - x) / M ≤ integFrom segs acc y - integFrom segs acc x ∧
     integFrom segs acc y - integFrom segs acc x ≤ (y - x) / μ := by
-  induction segs generalizing acc with
+  induction segs generalizing acc x with
   | nil => exact absurd rfl hne
   | cons s rest ih =>
     obtain ⟨b, m⟩ := s
@@ -375,7 +377,7 @@ theorem integFrom_slope (segs : List (α × α)) (acc x y μ M : α) (hv : Valid
         by_cases h2 : x < b'
         · rw [if_pos h2]
           -- split at b'
-          have hI := ih (acc + (b' - b) / m) hv' (by simp) (x := b') (by simp) hy hb'
+          have hI := ih (acc + (b' - b) / m) b' hv' (by simp) (by simp) hy hb'
           have hh := integFrom_head ((b', m') :: rest') (acc + (b' - b) / m) hv' (by simp)
           simp only [List.head_cons] at hh
           rw [hh] at hI
@@ -389,7 +391,7 @@ theorem integFrom_slope (segs : List (α × α)) (acc x y μ M : α) (hv : Valid
           · rw [s1]; linarith [hI.1, k.1]
           · rw [s2]; linarith [hI.2, k.2]
         · rw [if_neg h2]
-          exact ih (acc + (b' - b) / m) hv' (by simp) (by simpa using not_lt.mp h2) hb'
+          exact ih (acc + (b' - b) / m) x hv' (by simp) (by simpa using not_lt.mp h2) hxy hb'
 
 /-- bounds on the measures of a (finite) valid history always exist -/
 theorem exists_bounds (segs : List (α × α)) (hv : Valid segs) (hne : segs ≠ []) :
